@@ -14,9 +14,17 @@ EXTENDS CodecLife, EapLife
 Last(c) == c[Len(c)]
 AppendSub(cont, field, x) == [cont EXCEPT ![Len(cont)] = [@ EXCEPT ![field] = Append(@, x)]]
 
+\* the caller edits the payload it just built (its own object): the first octet of the payload's octet-string field is complemented
+FlipFirst(b) == IF Len(b) = 0 THEN b ELSE << 255 - b[1] >> \o Tail(b)
+EditPayload(p) ==
+  CASE p.k \in {"N", "CERT", "KE", "IDi", "IDr", "AUTH", "NONCE", "CERTREQ", "V"} -> [p EXCEPT !.data = FlipFirst(@)]
+    [] p.k = "EAP" -> IF p.eap.m \in {"expanded", "identity", "notification", "nak"} THEN [p EXCEPT !.eap = [@ EXCEPT !.data = FlipFirst(@)]] ELSE p
+    [] OTHER -> p
+
 ApplyCall(cont, c) ==
   LET A(p) == [ok |-> TRUE, cont |-> Append(cont, p)] IN
   CASE c.fn = "Reset" -> [ok |-> TRUE, cont |-> << >>]
+    [] c.fn = "Edit" -> [ok |-> TRUE, cont |-> IF Len(cont) = 0 THEN cont ELSE [cont EXCEPT ![Len(cont)] = EditPayload(@)]]
     [] c.fn = "NewMessage" -> [ok |-> TRUE, cont |-> cont]        \* the new message retains the container's payload list (see Run)
     [] c.fn = "Notification" -> A([k |-> "N", proto |-> c.proto, ntype |-> c.ntype, spi |-> c.spi, data |-> c.data])
     [] c.fn = "Certificate" -> A([k |-> "CERT", enc |-> c.enc, data |-> c.data])
